@@ -157,9 +157,21 @@ impl Sub for BerExp {
         let tie = (0usize..=7, prop_oneof![Just(-1i32), Just(0), Just(1), Just(-200), Just(200)], any::<[u8; 7]>());
         (x, ccs_strategy(), prop_oneof![1 => any::<[u8; 7]>().prop_map(|b| (None, b)), 3 => tie.prop_map(|(d, rel, b)| (Some((d, rel)), b))])
             .prop_map(|(x, ccs, (tie, mut bytes))| {
+                let mut x = x;
                 if let Some((d, rel)) = tie {
                     let s = model::s_candidates(x)[0];
-                    let z = model::ber_exp_threshold(x, ccs, s);
+                    let mut z = model::ber_exp_threshold(x, ccs, s);
+                    if d == 7 && rel >= 0 {
+                        // a tie on all seven bytes is decided (reject) when the eighth byte of the
+                        // threshold is zero: move x by ulps until it is
+                        for _ in 0..4000 {
+                            if z & 0xFF == 0 {
+                                break;
+                            }
+                            x = f64::from_bits(x.to_bits().wrapping_add(1));
+                            z = model::ber_exp_threshold(x, ccs, model::s_candidates(x)[0]);
+                        }
+                    }
                     for k in 0..d.min(7) {
                         bytes[k] = (z >> (56 - 8 * k)) as u8;
                     }
@@ -184,8 +196,8 @@ impl Sub for BerExp {
         let got = hook::ber_exp(c.x, c.ccs, bytes);
         st.count(&format!("ber_tie_depth_{}", depth));
         if allowed.contains(&Ber::Undetermined) {
-            // all supplied bytes tie: the specification would draw an eighth byte which this
-            // function does not receive; only totality is required
+            // all supplied bytes tie and the threshold's eighth byte is not zero: the specification
+            // would draw an eighth byte which this function does not receive; only totality is required
             st.count("ber_all_seven_bytes_tie(total_only)");
             st.nontrivial(&(c.x.to_bits(), c.ccs.to_bits(), bytes));
             return Ok(());
@@ -198,6 +210,9 @@ impl Sub for BerExp {
         }
         if depth >= 1 {
             st.nontrivial(&(c.x.to_bits(), c.ccs.to_bits(), bytes));
+        }
+        if depth >= 7 {
+            st.count("ber_all_seven_bytes_tie_and_eighth_threshold_byte_zero(must_reject)");
         }
         if c.x / LN2 >= 63.0 {
             st.count("ber_s_ge_63");
@@ -287,6 +302,33 @@ impl Sub for SamplerZ {
                 3 => Some((mu - 0.25, (sigma * (1.0 + 1e-9)).min(SIGMA_MAX), sigma_min)),
                 _ => Some((-mu, SIGMA_MAX, sigma_min)),
             };
+            let (mut mu, mut script) = (mu, script);
+            if tail_seed % 6 == 0 && mu.is_finite() {
+                // the first Bernoulli trial ties on all seven bytes, with mu moved by ulps until the
+                // threshold's eighth byte is zero (the tie is then decided: reject, go round again)
+                let mut head = [0u8; 10];
+                let mut s = tail_seed;
+                for b in head.iter_mut() {
+                    s = crate::util::mix(s);
+                    *b = (s >> 5) as u8;
+                }
+                let nine: [u8; 9] = head[..9].try_into().unwrap();
+                for _ in 0..4000 {
+                    let (x, ccs) = model::first_trial(mu, sigma, sigma_min, &nine, head[9]);
+                    let z = model::ber_exp_threshold(x, ccs, model::s_candidates(x)[0]);
+                    if z & 0xFF == 0 && model::s_candidates(x).len() == 1 {
+                        let mut t = head.to_vec();
+                        t.extend_from_slice(&z.to_be_bytes()[..7]);
+                        t.extend(script.iter().skip(17));
+                        script = t;
+                        break;
+                    }
+                    mu = f64::from_bits(mu.to_bits().wrapping_add(1));
+                    if !mu.is_finite() {
+                        break;
+                    }
+                }
+            }
             ZCase { mu, sigma, sigma_min, script: Hex(script), tail_seed, prev }
         }).boxed()
     }
@@ -327,6 +369,13 @@ impl Sub for SamplerZ {
         }
         if trace.iterations >= 2 {
             st.count("sampler_two_or_more_iterations");
+            if c.script.0.len() >= 17 {
+                let nine: [u8; 9] = c.script.0[..9].try_into().unwrap();
+                let (x, ccs) = model::first_trial(c.mu, c.sigma, c.sigma_min, &nine, c.script.0[9]);
+                if model::tie_depth(x, ccs, &c.script.0[10..17]) == 7 {
+                    st.count("sampler_first_trial_ties_on_all_seven_bytes(decided:reject)");
+                }
+            }
         }
         if trace.max_z0 >= 6 {
             st.count("sampler_z0_ge_6");
@@ -447,7 +496,7 @@ fn mean_offset(mu: f64, sigma: f64) -> f64 {
 }
 
 const META: Meta = Meta {
-    rule: "five sub-checks against refimpl::sampler (integer-exact transcription of Algorithms 12-15): (1) BaseSampler on every breakpoint RCDT[i]-2..+2, 0, 2^72-1, log-uniform and uniform 72-bit inputs, non-trivial = within 1 of a breakpoint or below 2^40; (2) ApproxExp bit-exact on x in [0, ln 2] (uniform, dyadic, subnormal, ln 2 - ulp) and ccs in (0,1] (1.0, sigma_min/sigma' for both variants, key generation's), plus the analytic bound |result - 2^63 ccs e^-x| <= 2^-45 * 2^63; (3) BerExp on x in [0,60] including k ln 2 +- ulps and s >= 63, with the 7 bytes uniform or computed from the model to tie on the first d = 0..7 bytes and the next byte below/equal/above, non-trivial = tie depth >= 1; with d = 7 only totality is required; where division and multiplication by 1/ln 2 give different floor(x/ln 2) either answer is accepted; (4) SamplerZ differential (same output and same number of bytes consumed) for mu in [-32736, 32736] (integers, half-integers, ulps around integers), sigma' in [sigma_min, 1.8205] for both variants and key generation, on uniform and 0x00/0xFF-biased scripted byte prefixes (up to 3000 bytes, i.e. more than a hundred consecutive rejections) with a seeded uniform tail, non-trivial = at least 2 loop iterations or z0 >= 6; (5) chi-square goodness of fit of N uniform-stream samples against D_{Z,mu,sigma'} on cells centre-12..centre+12 plus tails (cells with expectation < 25 merged), per-run false-alarm probability 1e-9 (Bonferroni over the tests of the run). Distinct by hash of the case.",
+    rule: "five sub-checks against refimpl::sampler (integer-exact transcription of Algorithms 12-15): (1) BaseSampler on every breakpoint RCDT[i]-2..+2, 0, 2^72-1, log-uniform and uniform 72-bit inputs, non-trivial = within 1 of a breakpoint or below 2^40; (2) ApproxExp bit-exact on x in [0, ln 2] (uniform, dyadic, subnormal, ln 2 - ulp) and ccs in (0,1] (1.0, sigma_min/sigma' for both variants, key generation's), plus the analytic bound |result - 2^63 ccs e^-x| <= 2^-45 * 2^63; (3) BerExp on x in [0,60] including k ln 2 +- ulps and s >= 63, with the 7 bytes uniform or computed from the model to tie on the first d = 0..7 bytes and the next byte below/equal/above, non-trivial = tie depth >= 1; with d = 7 the answer must be 'reject' when the threshold's eighth byte is zero (x is moved by ulps until it is, in 3 of 5 such cases) and only totality is required otherwise; where division and multiplication by 1/ln 2 give different floor(x/ln 2) either answer is accepted; (4) SamplerZ differential (same output and same number of bytes consumed) for mu in [-32736, 32736] (integers, half-integers, ulps around integers), sigma' in [sigma_min, 1.8205] for both variants and key generation, on uniform and 0x00/0xFF-biased scripted byte prefixes (up to 3000 bytes, i.e. more than a hundred consecutive rejections) with a seeded uniform tail, and streams whose first Bernoulli trial ties on all seven bytes with a zero eighth threshold byte (mu moved by ulps until it is), non-trivial = at least 2 loop iterations or z0 >= 6; (5) chi-square goodness of fit of N uniform-stream samples against D_{Z,mu,sigma'} on cells centre-12..centre+12 plus tails (cells with expectation < 25 merged), per-run false-alarm probability 1e-9 (Bonferroni over the tests of the run). Distinct by hash of the case.",
     assumptions: &[
         "oracle: refimpl::sampler; its RCDT is re-derived by tools/derive_constants.py as sum_{j>i} floor(2^72 rho(j)/sum rho), its ApproxExp is accurate to 2^-44 against libm exp, and it reproduces the specification's known-answer vectors (refimpl self-tests)",
         "the sampler draws one byte per RngCore::next_u32 call (rand 0.8 semantics for u8), which the scripted byte source reproduces",
